@@ -56,6 +56,148 @@ fn residual(clauses: &[Vec<(usize, bool)>], m: &[Option<bool>]) -> (Vec<(usize, 
     (out, falsified)
 }
 
+/// "Sweep" scenario (one run in 1500): a formula with thousands of literal occurrences in which every variable
+/// occurs exactly once, so that for every single occurrence `o` of every clause `c` there is an assignment that
+/// falsifies nothing, satisfies every other clause and leaves exactly `o` unassigned in `c`: its residual is
+/// `{(c, [o])}`, tiny, so "equal hashes only for equal residuals" is decidable however large the formula is. The
+/// sweep asks for the hash of every such state (directly, and after telling the hasher about part of the assignment
+/// through push/decide), demands pairwise different answers, equal answers for equal residuals reached through
+/// different assignments, and does the same for a sample of two-occurrence residuals.
+fn run_sweep(plan: &Plan, ctx: &mut Ctx) -> R {
+    ctx.cur_prop = "C15";
+    let mut r = Rng::new(plan.get("sweep_seed") as u64);
+    let n_occ = plan.get("sweep_occ").clamp(8, 20_000) as usize;
+    let mut labels: Vec<usize> = (0..n_occ).collect();
+    if plan.get_or("sweep_shuffle", 1) != 0 {
+        r.shuffle(&mut labels);
+    }
+    let mut clauses_in: Vec<Vec<(usize, bool)>> = Vec::new();
+    let mut at = 0;
+    while at < n_occ {
+        // mostly binary and ternary clauses, a few unit clauses (which the hasher must ignore) and wider ones
+        let sz = match r.below(24) {
+            0 => 1,
+            1..=9 => 2,
+            10..=19 => 3,
+            20..=22 => 4,
+            _ => 5 + r.below(8) as usize,
+        }
+        .min(n_occ - at);
+        clauses_in.push(labels[at..at + sz].iter().map(|v| (*v, r.bool())).collect());
+        at += sz;
+    }
+    let lits: Vec<Vec<Literal>> = clauses_in.iter().map(|c| c.iter().map(|(v, p)| lit(*v, *p)).collect()).collect();
+    let cnf = Cnf::new(&lits);
+    let nv = cnf.num_vars();
+    ctx.ev(50, &[nv as u64, clauses_in.len() as u64]);
+    ctx.check("C15", "cnf-num-vars", nv == n_occ, || format!("Cnf::new reports {nv} variables, the clause list mentions labels below {n_occ}"))?;
+    ctx.check("C15", "cnf-clause-count", cnf.clauses().len() == clauses_in.len(), || format!("Cnf::new kept {} of {} clauses", cnf.clauses().len(), clauses_in.len()))?;
+    let clauses: Vec<Vec<(usize, bool)>> = cnf.clauses().iter().map(|c| c.iter().map(|l| (l.label().value_usize(), l.polarity())).collect()).collect();
+    for (a, b) in clauses.iter().zip(clauses_in.iter()) {
+        let (sa, sb): (BTreeSet<_>, BTreeSet<_>) = (a.iter().collect(), b.iter().collect());
+        ctx.check("C15", "cnf-normalisation-keeps-literal-set", sa == sb, || format!("clause {:?} was normalised to {:?}", b, a))?;
+    }
+    let mut hasher = cnf.hasher().clone();
+    // base state: every clause satisfied through its first literal, everything else unassigned
+    let mut pm = PartialModel::new(nv);
+    for c in clauses.iter() {
+        pm.set(VarLabel::new(c[0].0 as u64), c[0].1);
+    }
+    let mut seen: BTreeMap<String, (usize, usize)> = BTreeMap::new();
+    let mut single: Vec<Vec<String>> = vec![Vec::new(); clauses.len()];
+    let mut n_states = 0u64;
+    // every `stride`-th clause only for formulas beyond 6000 occurrences (cost is quadratic)
+    for (ci, c) in clauses.iter().enumerate() {
+        if c.len() < 2 {
+            continue;
+        }
+        ctx.step = ci;
+        for oi in 0..c.len() {
+            // clause ci: everything false except occurrence oi, which stays unassigned
+            for (j, (v, p)) in c.iter().enumerate() {
+                if j == oi {
+                    pm.unset(VarLabel::new(*v as u64));
+                } else {
+                    pm.set(VarLabel::new(*v as u64), !*p);
+                }
+            }
+            // one state in four: the hasher is told about the satisfying literals of a few other clauses first
+            let told = r.below(4) == 0;
+            if told {
+                hasher.push();
+                for _ in 0..(1 + r.below(6)) {
+                    let k = r.below(clauses.len() as u64) as usize;
+                    if k != ci {
+                        hasher.decide(lit(clauses[k][0].0, clauses[k][0].1));
+                    }
+                }
+            }
+            let hs = format!("{:?}", hasher.hash(&pm));
+            if told {
+                hasher.pop();
+            }
+            ctx.ops += 1;
+            n_states += 1;
+            ctx.ev(57, &[ci as u64, oi as u64, crate::rng::str_hash(&hs)]);
+            let prev = seen.insert(hs.clone(), (ci, oi));
+            ctx.check("C15", "hasher-equal-hash-equal-residual", prev.is_none(), || {
+                let (pc, po) = prev.unwrap();
+                format!(
+                    "hash {hs} was produced for the residual {{clause {pc}: [{:?}]}} and for the residual {{clause {ci}: [{:?}]}} ({} literal occurrences in the formula)",
+                    clauses[pc][po], c[oi], n_occ
+                )
+            })?;
+            single[ci].push(hs);
+        }
+        // back to the base state; the same residuals again, reached through another satisfying literal of the
+        // neighbouring clauses, must hash as before
+        for (j, (v, p)) in c.iter().enumerate() {
+            if j == 0 {
+                pm.set(VarLabel::new(*v as u64), *p);
+            } else {
+                pm.unset(VarLabel::new(*v as u64));
+            }
+        }
+    }
+    // equal residual => equal hash: other clauses satisfied through their *last* literal this time (sampled clauses)
+    let mut pm2 = PartialModel::new(nv);
+    for c in clauses.iter() {
+        let l = c[c.len() - 1];
+        pm2.set(VarLabel::new(l.0 as u64), l.1);
+    }
+    for _ in 0..clauses.len().min(400) {
+        let ci = r.below(clauses.len() as u64) as usize;
+        let c = &clauses[ci];
+        if c.len() < 2 {
+            continue;
+        }
+        let oi = r.below(c.len() as u64) as usize;
+        for (j, (v, p)) in c.iter().enumerate() {
+            if j == oi {
+                pm2.unset(VarLabel::new(*v as u64));
+            } else {
+                pm2.set(VarLabel::new(*v as u64), !*p);
+            }
+        }
+        let hs = format!("{:?}", hasher.hash(&pm2));
+        ctx.ops += 1;
+        ctx.check("C15", "hasher-equal-residual-equal-hash", hs == single[ci][oi], || {
+            format!("the residual {{clause {ci}: [{:?}]}} hashed to {} and, with the other clauses satisfied through other literals, to {hs}", c[oi], single[ci][oi])
+        })?;
+        for (j, (v, p)) in c.iter().enumerate() {
+            if j == c.len() - 1 {
+                pm2.set(VarLabel::new(*v as u64), *p);
+            } else {
+                pm2.unset(VarLabel::new(*v as u64));
+            }
+        }
+    }
+    ctx.count("sweep-single-occurrence-states", n_states);
+    ctx.nontrivial = true;
+    ctx.states.push(mix(n_occ as u64, clauses.len() as u64));
+    Ok(())
+}
+
 impl World for CnfWorld {
     fn name(&self) -> &'static str {
         "cnf"
@@ -69,6 +211,23 @@ impl World for CnfWorld {
         let mut c = Rng::stream(run_seed, "config");
         let mut o = Rng::stream(run_seed, "ops");
         let mut s = Rng::stream(run_seed, "schedule");
+        // one run in 1500: the sweep scenario (thousands of literal occurrences, every variable once); sizes next to
+        // multiples of 4096 and 1024 are favoured
+        if c.below(1500) == 0 {
+            let occ = match c.below(6) {
+                0 => 300 + c.below(900),
+                1 => 4080 + c.below(60),
+                2 => 8170 + c.below(60),
+                3 => 1000 + c.below(1100),
+                4 => 4200 + c.below(2000),
+                _ => 2000 + c.below(7000),
+            };
+            cfg.insert("sweep_occ".into(), occ as i64);
+            cfg.insert("sweep_seed".into(), (c.next() >> 2) as i64);
+            cfg.insert("sweep_shuffle".into(), (c.below(3) != 0) as i64);
+            cfg.insert("arena".into(), 2);
+            return Plan { world: "cnf".into(), target: target.into(), seed: run_seed, cfg, ops: Vec::new(), faults: Faults::Random { seed: mix(run_seed, 81), rates: [0; NUM_SITES] } };
+        }
         let wide = c.below(4) == 0;
         // one run in six is a large formula (11-60 variables, up to 90 clauses): eval/condition are then judged on
         // 64 sampled assignments and the brute-force count is skipped; the hasher checks need no enumeration
@@ -142,6 +301,9 @@ impl World for CnfWorld {
     }
 
     fn execute(&self, plan: &Plan, ctx: &mut Ctx) -> R {
+        if plan.get_or("sweep_occ", 0) != 0 {
+            return run_sweep(plan, ctx);
+        }
         ctx.cur_prop = "C15";
         let big = plan.get_or("big", 0) != 0;
         let clauses_in: Vec<Vec<(usize, bool)>> = clauses_of_plan(&plan.ops, if big { 64 } else { MAXV });
